@@ -106,6 +106,12 @@ ALSO_SERVES = {
     "C03": ["urwid/util.py:calc_trim_text", "urwid/str_util.py:calc_text_pos", "urwid/str_util.py:calc_width"],
     "C04": ["urwid/util.py:calc_trim_text"],
 }
+# C16 "the monitored lists used for container contents": the callbacks those lists call in their owners.  The validators
+# (before the list changes: a refusal leaves the list as it was) serve C16 as they stand; the `modified` / focus-changed
+# callbacks are verified a second time in the state the list really calls them in (contracts/C16_clients.py).
+ALSO_SERVES["C16"] = ["urwid/widget/grid_flow.py:GridFlow._contents_modified",
+                      "urwid/widget/pile.py:Pile._contents_modified", "urwid/widget/columns.py:Columns._contents_modified",
+                      "urwid/widget/grid_flow.py:GridFlow._invalidate"]
 # draw_screen's skip-unchanged-rows test (`osb[y] == row`), its attribute-switch test (`last_attributes != a`) and the
 # `a in self._pal_escape` lookup are AttrSpec.__eq__ / __hash__ when AttrSpec objects are canvas attributes; AttrMap's
 # attribute dictionaries are keyed by them too: equal exactly when the packed words are equal, hash a function of the word.
@@ -129,3 +135,11 @@ SHARDS.update({
     "urwid/canvas.py:TextCanvas.content#three-rows": (16, 10),
 })
 THOROUGH_ONLY += ("urwid/canvas.py:TextCanvas.content#three-rows",)
+
+SHARDS.update({
+    # (three functions of ~20 s each on one core: two shards keep each below the critical path of the property's
+    #  quick run without multiplying the shared prefix work)
+    "urwid/widget/pile.py:Pile._get_fixed_rows_sizes": (2, 5),
+    "urwid/widget/columns.py:Columns._get_fixed_column_sizes": (2, 5),
+    "urwid/widget/columns.py:Columns.get_column_sizes#sized": (2, 5),
+})
